@@ -29,9 +29,23 @@ def eval_range(t, gen_calls=(), env=None, depth=0):
     h = t[0]
     if h == "const" and isinstance(t[2], int):
         return (t[2], t[2])
+    if h == "deref" or h == "ref":
+        return eval_range(t[1], gen_calls, env, depth + 1)
     if h == "call":
         if any(g in t[1] for g in gen_calls):
             return (0, (1 << 64) - 1)
+        name = t[1].split(" => ")[0]
+        if name.endswith("cmp::Ord::max") or name.endswith("cmp::Ord::min"):
+            rs = [eval_range(a, gen_calls, env, depth + 1) for a in t[2][:2]]
+            known = [r for r in rs if r is not None]
+            if name.endswith("max") and known:
+                lo = max(r[0] for r in known)
+                hi = max(r[1] for r in known) if len(known) == 2 else (1 << 64) - 1
+                return (lo, max(hi, lo))
+            if name.endswith("min") and known:
+                hi = min(r[1] for r in known)
+                lo = min(r[0] for r in known) if len(known) == 2 else 0
+                return (min(lo, hi), hi)
         return None
     if h == "phi":
         rs = [eval_range(x, gen_calls, env, depth + 1) for x in t[2]]
@@ -96,6 +110,14 @@ def eval_range(t, gen_calls=(), env=None, depth=0):
         elif op == "Rem" and b[0] > 0 and a[0] >= 0:
             r = (0, min(a[1], b[1] - 1))
         elif op in ("Eq", "Ne", "Lt", "Le", "Gt", "Ge"):
+            always = {"Lt": a[1] < b[0], "Le": a[1] <= b[0], "Gt": a[0] > b[1], "Ge": a[0] >= b[1],
+                      "Eq": a[0] == a[1] == b[0] == b[1], "Ne": a[1] < b[0] or a[0] > b[1]}[op]
+            never = {"Lt": a[0] >= b[1], "Le": a[0] > b[1], "Gt": a[1] <= b[0], "Ge": a[1] < b[0],
+                     "Eq": a[1] < b[0] or a[0] > b[1], "Ne": a[0] == a[1] == b[0] == b[1]}[op]
+            if always:
+                return (1, 1)
+            if never:
+                return (0, 0)
             return (0, 1)
         else:
             return tr
